@@ -127,11 +127,10 @@ class RobotsTxtChecker(object):
 
         # The file is UTF-8 (RFC 9309). Given bytes, the parser assumes
         # ISO-8859-1 and a rule written in raw UTF-8 never matches the
-        # percent-encoded UTF-8 of the URL.
-        try:
-            data = data.decode('utf-8')
-        except UnicodeDecodeError:
-            data = data.decode('latin-1')
+        # percent-encoded UTF-8 of the URL. Bytes that are not UTF-8 (also
+        # a character cut in two by the size limit above) must not change
+        # how the rest of the file is read.
+        data = data.decode('utf-8', 'replace')
 
         try:
             self._robots_txt_pool.load_robots_txt(url_info, data)
